@@ -161,6 +161,8 @@ fn to_tokens_integers<T: RangeNumber>(
     quote! {
         {
             #captured_values
+            // the count is moved in the closure, clone it as it can be used by other plurals/ranges of the same value.
+            let #count_key = core::clone::Clone::clone(&#count_key);
             move || #match_statement
         }
     }
@@ -206,6 +208,8 @@ fn to_tokens_floats<T: RangeNumber>(
     quote! {
         {
             #captured_values
+            // the count is moved in the closure, clone it as it can be used by other plurals/ranges of the same value.
+            let #count_key = core::clone::Clone::clone(&#count_key);
             move || {
                 let plural_count = #count_key();
                 #ifs
